@@ -23,6 +23,46 @@ import (
 	"verifh/hx"
 )
 
+var envLoopback struct {
+	once sync.Once
+	ok   bool
+}
+
+// envHasLoopback: can this machine listen on and dial 127.0.0.1 at all (plain net, no library code)?
+func envHasLoopback() bool {
+	envLoopback.once.Do(func() {
+		l, err := net.Listen("tcp", "127.0.0.1:0")
+		if err != nil {
+			return
+		}
+		defer l.Close()
+		go func() {
+			defer recoverNote()
+			if c, err := l.Accept(); err == nil {
+				_ = c.Close()
+			}
+		}()
+		c, err := net.DialTimeout("tcp", l.Addr().String(), hangLimit)
+		if err != nil {
+			return
+		}
+		_ = c.Close()
+		envLoopback.ok = true
+	})
+	return envLoopback.ok
+}
+
+// unavailable: a carrier pair could not be established.  If plain sockets work on this machine the
+// library's own launch / dial / upgrade path is what failed: no connection, no packets — a verdict, not a skip.
+func (x *c03) unavailable(n int, kind string, err error) {
+	c := x.c
+	c.Stat("loopback_unavailable", 1)
+	c.Sample("loopback " + kind + " unavailable: " + err.Error())
+	if envHasLoopback() {
+		c.Emit("direct %s_carrier_available %d FAIL no %s connection through transport.Launch / Dial / Accept although plain 127.0.0.1 sockets work: %v", x.prop, n, kind, err)
+	}
+}
+
 type rawPeer interface {
 	send(chunk []byte, binary bool) error
 	readAll() ([]byte, error) // everything the other side wrote until it closed
@@ -41,8 +81,16 @@ func (p *tcpPeer) readAll() ([]byte, error) {
 func (p *tcpPeer) close(bool) { _ = p.c.Close() }
 
 type wsPeer struct {
-	c    *websocket.Conn
-	frag int // > 0: a message is written with several Write calls of this size on one NextWriter
+	c     *websocket.Conn
+	frag  int  // > 0: a message is written with several Write calls of this size on one NextWriter
+	pings bool // control frames (ping, unsolicited pong) before messages and between the frames of a message
+}
+
+func (p *wsPeer) control() {
+	if p.pings {
+		_ = p.c.WriteControl(websocket.PingMessage, []byte("hb"), time.Now().Add(time.Second))
+		_ = p.c.WriteControl(websocket.PongMessage, []byte("x"), time.Now().Add(time.Second))
+	}
 }
 
 func (p *wsPeer) send(chunk []byte, binary bool) error {
@@ -50,6 +98,7 @@ func (p *wsPeer) send(chunk []byte, binary bool) error {
 	if !binary {
 		t = websocket.TextMessage
 	}
+	p.control()
 	if p.frag <= 0 {
 		return p.c.WriteMessage(t, chunk)
 	}
@@ -64,6 +113,9 @@ func (p *wsPeer) send(chunk []byte, binary bool) error {
 		}
 		if _, err := w.Write(chunk[off:end]); err != nil {
 			return err
+		}
+		if off/p.frag%8 == 3 {
+			p.control()
 		}
 	}
 	return w.Close()
@@ -123,12 +175,18 @@ func pairFrag(kind string, frag int) (transport.Conn, rawPeer, func(), error) {
 		if frag > 0 {
 			d.WriteBufferSize = frag // a frame is flushed whenever this buffer is full
 		}
+		if frag < 0 {
+			frag = -1
+		}
 		c, _, err := d.Dial("ws://"+addr+"/", nil)
 		if err != nil {
 			_ = srv.Close()
 			return nil, nil, nil, err
 		}
-		peer = &wsPeer{c: c, frag: frag}
+		peer = &wsPeer{c: c, frag: frag, pings: frag < 0 || frag%2 == 1}
+		if frag < 0 {
+			peer.(*wsPeer).frag = 0
+		}
 	}
 	select {
 	case a := <-ch:
@@ -204,8 +262,7 @@ func (x *c03) loopbackReceiveFrag(kind string, stream []byte, sizes []int, lim i
 	c := x.c
 	conn, peer, stop, err := pairFrag(kind, frag)
 	if err != nil {
-		c.Stat("loopback_unavailable", 1)
-		c.Sample("loopback " + kind + " unavailable: " + err.Error())
+		x.unavailable(n, kind, err)
 		return
 	}
 	defer stop()
@@ -306,7 +363,7 @@ func (x *c03) loopbackSend(kind string, ps []packet.Generic, asyncs []bool, dela
 	c := x.c
 	conn, peer, stop, err := pair(kind)
 	if err != nil {
-		c.Stat("loopback_unavailable", 1)
+		x.unavailable(n, kind, err)
 		return
 	}
 	defer stop()
@@ -432,7 +489,7 @@ func (x *c03) loopbackLibrarySender(kind string, ps []packet.Generic, asyncs []b
 	c := x.c
 	cl, srv, stop, err := connPair(kind)
 	if err != nil {
-		c.Stat("loopback_unavailable", 1)
+		x.unavailable(n, kind, err)
 		return
 	}
 	defer stop()
@@ -612,17 +669,81 @@ func (x *c03) loopbackCases() {
 }
 
 // C19 over real carriers: concurrent senders on one end, a receiver on the other, Close at the end
+// closeFlushesReal: over a real pair, k buffered sends under a flush delay that never elapses, the
+// last one a DISCONNECT, then Close: the peer must receive every one of them, in order.
+func (x *c03) closeFlushesReal(kind string, k int) {
+	x.n++
+	n := x.n
+	c := x.c
+	c.Emit("case %d closereal kind=%s k=%d", n, kind, k)
+	cl, srv, stop, err := connPair(kind)
+	if err != nil {
+		x.unavailable(n, kind, err)
+		return
+	}
+	defer stop()
+	cl.SetMaxWriteDelay(time.Hour)
+	var ps []packet.Generic
+	for i := 0; i < k-1; i++ {
+		ps = append(ps, senderPacket(i%3, i, 5+c.Rng.Intn(40)))
+	}
+	ps = append(ps, &packet.Disconnect{})
+	msg := ""
+	for i, p := range ps {
+		if err := cl.Send(p, true); err != nil {
+			msg = fmt.Sprintf("buffered Send %d failed: %v", i, err)
+		}
+	}
+	var cerr error
+	if !call(func() { cerr = cl.Close() }) {
+		c.Emit("direct c19_nohang %d FAIL Close over %s did not return", n, kind)
+		return
+	}
+	var got []packet.Generic
+	var rerr error
+	ok := call(func() {
+		for {
+			p, err := srv.Receive()
+			if err != nil {
+				rerr = err
+				return
+			}
+			got = append(got, p)
+		}
+	})
+	_ = srv.Close()
+	if !ok {
+		c.Emit("direct c19_nohang %d FAIL Receive over %s did not return after the peer closed", n, kind)
+		return
+	}
+	same := msg == "" && cerr == nil && len(got) == len(ps)
+	for i := 0; same && i < len(ps); i++ {
+		same = hx.PktText(ps[i]) == hx.PktText(got[i])
+	}
+	if same {
+		c.Emit("direct c19_close_flushes %d ok", n)
+	} else {
+		c.Emit("direct c19_close_flushes %d FAIL over %s: %d buffered sends (the last a DISCONNECT) were accepted, Close returned %v, the peer received %d packets then %v %s",
+			n, kind, len(ps), cerr, len(got), rerr, msg)
+	}
+	c.Stat("close_flushes_checks", 1)
+	c.Stat("loopback_runs", 1)
+}
+
 func (x *c03) loopbackC19(runs int) {
 	c := x.c
 	r := c.Rng
+	for _, kind := range []string{"ws", "tcp"} {
+		x.closeFlushesReal(kind, 1)
+		x.closeFlushesReal(kind, 6)
+	}
 	for i := 0; i < runs; i++ {
 		kind := []string{"tcp", "ws"}[i%2]
 		x.n++
 		n := x.n
 		a, b, stop, err := connPair(kind)
 		if err != nil {
-			c.Stat("loopback_unavailable", 1)
-			c.Sample("loopback " + kind + " unavailable: " + err.Error())
+			x.unavailable(n, kind, err)
 			continue
 		}
 		senders := 1 + r.Intn(16)
